@@ -395,3 +395,56 @@ func H_C02_sequence() {
 	}
 	vCover("reached")
 }
+
+// H_C02_quoted: the literal as the parser delivers it. A quoted literal is
+// read in the selected value's own type from the Go string it spells —
+// escapes included — not from its source text.
+var quotedC02 = []struct {
+	src, val string
+}{
+	{`"a\tb"`, "a\tb"}, {`"caf\u00e9"`, "café"}, {`"C:\\dir"`, `C:\dir`}, {`"\x31\x30"`, "10"}, {`"\u0054"`, "T"},
+	{"`a\\tb`", `a\tb`}, {`"\061"`, "1"}, {`"0\x78\x31\x30"`, "0x10"}, {`"-\x31"`, "-1"}, {`"1\x2e5"`, "1.5"}, {`"\164rue"`, "true"}, {`plain`, "plain"}, {`"é"`, "é"},
+}
+
+func H_C02_quoted() {
+	q := quotedC02[vChoose(len(quotedC02))]
+	ev, err := CreateEvaluator("k == " + q.src)
+	vAssert(err == nil, "quoted literal is accepted: "+q.src)
+	if err != nil {
+		return
+	}
+	switch vChoose(5) {
+	case 0: // string field: equal iff byte-equal to the spelled string
+		x := q.val
+		if vBool() {
+			x = q.src // the source text itself is a different string (unless unquoted and bare)
+		}
+		got, gerr := ev.Evaluate(map[string]interface{}{"k": x})
+		vAssert(gerr == nil && got == (x == q.val), "string field against "+q.src)
+	case 1:
+		x := vInt16()
+		want, werr := strconv.ParseInt(q.val, 0, 64)
+		got, gerr := ev.Evaluate(map[string]interface{}{"k": x})
+		vAssert((gerr != nil) == (werr != nil), "int16 field: error iff the spelled string is no integer: "+q.src)
+		vAssert(gerr != nil || got == (int64(x) == want), "int16 field against "+q.src)
+	case 2:
+		x := vBool()
+		want, werr := strconv.ParseBool(q.val)
+		got, gerr := ev.Evaluate(map[string]interface{}{"k": x})
+		vAssert((gerr != nil) == (werr != nil), "bool field: error iff the spelled string is no bool: "+q.src)
+		vAssert(gerr != nil || got == (x == want), "bool field against "+q.src)
+	case 3:
+		x := vFloat64()
+		want, werr := strconv.ParseFloat(q.val, 64)
+		got, gerr := ev.Evaluate(map[string]interface{}{"k": x})
+		vAssert((gerr != nil) == (werr != nil), "float64 field: error iff the spelled string is no float: "+q.src)
+		vAssert(gerr != nil || got == (x == want), "float64 field against "+q.src)
+	default:
+		x := vUint8()
+		want, werr := strconv.ParseUint(q.val, 0, 64)
+		got, gerr := ev.Evaluate(map[string]interface{}{"k": x})
+		vAssert((gerr != nil) == (werr != nil), "uint8 field: error iff the spelled string is no unsigned integer: "+q.src)
+		vAssert(gerr != nil || got == (uint64(x) == want), "uint8 field against "+q.src)
+	}
+	vCover("reached")
+}
